@@ -244,6 +244,15 @@ func (x *Exec) verify() (err error) {
 		fr.free = append(fr.free, v)
 		// a free variable is a pointer to the captured variable; expose the variable itself by name
 		vars["&"+fv.Name()] = v
+		if _, ok := fv.Type().Underlying().(*types.Pointer); ok {
+			// the cell of a captured variable always exists, and distinct variables have distinct cells
+			st.assume(tNot(tIsNil(v.L[0])))
+			for _, o := range fr.free[:len(fr.free)-1] {
+				if len(o.L) == 1 && types.Identical(o.T, v.T) {
+					st.assume(tNot(tEq(o.L[0], v.L[0])))
+				}
+			}
+		}
 	}
 	st.frames = []*Frame{fr}
 	x.entryVars = vars
@@ -727,7 +736,7 @@ func (x *Exec) enterBlock(st *State, b *ssa.BasicBlock, pred *ssa.BasicBlock) {
 		x.havocLoop(st, fr, li)
 		// per-iteration ghost counters (sends per stream, monitor writes) start at zero
 		for k := range st.ghostInt {
-			if strings.HasPrefix(k, "sent:") || strings.HasPrefix(k, "recv:") || strings.HasPrefix(k, "writes:") || strings.HasPrefix(k, "rtrue:") || strings.HasPrefix(k, "rerr:") {
+			if strings.HasPrefix(k, "sent:") || strings.HasPrefix(k, "recv:") || strings.HasPrefix(k, "writes:") || strings.HasPrefix(k, "rtrue:") || strings.HasPrefix(k, "rerr:") || strings.HasPrefix(k, "rcall:") || strings.HasPrefix(k, "go:") {
 				st.ghostInt[k] = "0"
 			}
 		}
